@@ -49,6 +49,14 @@ THEOREMS = [P + n for n in [
     "lex_consumes_input",
     "lex_progress",
     "ascii_wf",
+    # positions reported later
+    "raise_error_token_priority",
+    "raise_error_selects_token",
+    "raise_error_on_lexed_token",
+    "update_positions_token",
+    "update_positions_copy",
+    "meta_selects_lexeme",
+    "generated_positions_shape_ok",
     # highlight_sql
     "highlight_selects",
     "highlight_context_bounds",
@@ -320,6 +328,9 @@ def parse_violation(sql: str, d):
                 want = meta_lexeme(exp, node)
                 if want is not None and not any(x.text == want or x.text.upper() == want.upper() for x in ts):
                     cause = "name" if isinstance(node, exp.Identifier) else "lexeme"
+                    if (isinstance(node, exp.Star) and (m.get("line"), m.get("col"), m["start"], m["end"]) == (1, 1, 0, 0)
+                            and sql[:1] != "*"):
+                        cause = "synthetic-star"  # the default span happens to coincide with a one-character first token
                     return ("meta", cause, -1, f"{cls} {want!r} carries the span of lexeme {sql[t.start:t.end + 1]!r} "
                                                f"(line {m.get('line')} col {m.get('col')} start {m['start']} end {m['end']})")
     return None
@@ -620,6 +631,45 @@ def cfg_of(d) -> dict:
     }
 
 
+def position_meta_keys() -> list:
+    from sqlglot.expressions import core
+
+    return list(core.POSITION_META_KEYS)
+
+
+def raise_error_shape(chk: Check) -> list:
+    """the parts of Parser.raise_error the model mirrors, as source text (ast.unparse): the token fallback chain, the
+    arguments of highlight_sql and the position arguments of ParseError.new"""
+    import ast
+
+    src = open(os.path.join(REPO, "sqlglot", "parser.py"), encoding="utf-8").read()
+    out = []
+    try:
+        tree = ast.parse(src)
+        fn = next(n for c in tree.body if isinstance(c, ast.ClassDef) and c.name == "Parser"
+                  for n in c.body if isinstance(n, ast.FunctionDef) and n.name == "raise_error")
+        for node in ast.walk(fn):
+            if isinstance(node, ast.Assign) and isinstance(node.value, ast.BoolOp) and any(
+                    isinstance(tg, ast.Name) and tg.id == "token" for tg in node.targets):
+                out.append("token = " + ast.unparse(node.value))
+            if isinstance(node, ast.Call):
+                f = ast.unparse(node.func)
+                if f == "highlight_sql":
+                    out += sorted(f"highlight_sql:{k.arg}={ast.unparse(k.value)}" for k in node.keywords)
+                if f == "ParseError.new":
+                    out += sorted(f"ParseError.new:{k.arg}={ast.unparse(k.value)}" for k in node.keywords
+                                  if k.arg in ("line", "col", "start_context", "highlight", "end_context"))
+        for cls in [c for c in tree.body if isinstance(c, ast.ClassDef) and c.name == "Parser"]:
+            for n in cls.body:
+                if isinstance(n, ast.FunctionDef) and n.name == "expression":
+                    for st in n.body:
+                        if isinstance(st, ast.If) and ast.unparse(st.test) == "token":
+                            out.append("expression: if token: " + "; ".join(ast.unparse(b) for b in st.body))
+    except Exception as e:  # noqa
+        chk.broken.append({"kind": "translator", "what": f"C13 translator: structure changed: Parser.raise_error not recognised ({e!r})"})
+    return out
+
+
 def lpairs(ps) -> str:
     return "[" + ", ".join("(" + ", ".join(lean_str(x) for x in p) + ")" for p in ps) + "]"
 
@@ -693,6 +743,9 @@ def translate(chk: Check) -> str:
         "  fixLoneCR := fixLoneCR,",
         "  fixKwJump := fixKwJump,",
         "  fixEscJump := fixEscJump }",
+        "/-- structural facts read with `ast` from Parser.raise_error and expressions/core.py -/",
+        f"def positionMetaKeys : List String := {lstrs(position_meta_keys())}",
+        f"def raiseErrorShape : List String := {lstrs(raise_error_shape(chk))}",
         "end SqlglotModel.Generated.C13",
         "",
     ]
@@ -725,6 +778,60 @@ def real_lex(sql: str, d):
     return "ok " + json.dumps([[t.token_type.name, t.text, t.line, t.col, t.start, t.end] for t in toks
                                 if not (t.token_type.name == "HIVE_TOKEN_STREAM" and t.text == "")],
                                ensure_ascii=False, separators=(",", ":"))
+
+
+def real_raise_error(sql, tk, cu, pv, ctx):
+    """call the real Parser.raise_error with chosen token / _curr / _prev and read back what it records"""
+    _, _, _, _, TT, _, ParseError, ErrorLevel, _ = sg()
+    from sqlglot.parser import Parser, SENTINEL_NONE
+    from sqlglot.tokens import Token
+
+    def mk(t):
+        return SENTINEL_NONE if t is None else Token(TT.VAR, "x", t[0], t[1], t[2], t[3])
+
+    p = Parser(error_level=ErrorLevel.IMMEDIATE, error_message_context=ctx)
+    p.sql = sql
+    p._curr, p._prev = mk(cu), mk(pv)
+    try:
+        p.raise_error("msg", mk(tk)) if tk is not None else p.raise_error("msg")
+    except ParseError as e:
+        d = e.errors[0]
+        head = f"msg. Line {d['line']}, Col: {d['col']}.\n  "
+        msg = str(e)
+        formatted = msg[len(head):] if msg.startswith(head) else "<<message prefix differs>>" + msg
+        return [d["line"], d["col"], d["start_context"], d["highlight"], d["end_context"], formatted, d["description"]]
+    return ["no error raised"]
+
+
+POS_KEYS = ("line", "col", "start", "end")
+
+
+def real_update_positions(init, src):
+    _, exp, _, _, TT, *_ = sg()
+    from sqlglot.tokens import Token
+
+    def fill(node, vals, extra=False):
+        if any(v != "A" for v in vals) or extra:
+            for k, v in zip(POS_KEYS, vals):
+                if v != "A":
+                    node.meta[k] = v
+            if extra:
+                node.meta["name"] = "n"
+
+    node = exp.Identifier(this="x")
+    fill(node, init)
+    if src["kind"] == "token":
+        t = src["t"]
+        node.update_positions(Token(TT.VAR, "x", t[0], t[1], t[2], t[3]))
+    elif src["kind"] == "expr":
+        other = exp.Identifier(this="y")
+        fill(other, src["other"], src.get("extra", False))
+        node.update_positions(other)
+    else:
+        v = src["v"]
+        node.update_positions(line=v[0], col=v[1], start=v[2], end=v[3])
+    m = node._meta or {}
+    return [m[k] if k in m else "A" for k in POS_KEYS]
 
 
 def supported_chars(sql: str) -> bool:
@@ -787,6 +894,41 @@ def correspond(chk: Check) -> list:
         lines.append(json.dumps({"op": "linecol", "sql": [ord(c) for c in s]}))
         expect.append(json.dumps([[a, b] for a, b in zip(ln, co)], separators=(",", ":")))
         meta.append(("linecol", None, s))
+    # Parser.raise_error: token fallback chain, line/col, highlight_sql window with error_message_context
+    for _ in range(chk.pick(500, 6000)):
+        sq = gen_soup(rng, 0.0) if rng.random() < 0.9 else ""
+        n = len(sq)
+
+        def rtok():
+            if rng.random() < 0.35:
+                return None
+            a = rng.randint(0, n + 1)
+            b = a + rng.choice([0, 0, 1, 2, 5, 9]) if rng.random() < 0.9 else max(a - rng.randint(1, 3), 0)
+            return [rng.randint(1, 9), rng.randint(0, 40), a, b]
+
+        tk, cu, pv = rtok(), rtok(), rtok()
+        ctx = rng.choice([0, 1, 3, 10, 100])
+        lines.append(json.dumps({"op": "raise", "sql": [ord(c) for c in sq], "token": tk, "curr": cu, "prev": pv, "ctx": ctx}))
+        expect.append(json.dumps(real_raise_error(sq, tk, cu, pv, ctx), ensure_ascii=False, separators=(",", ":")))
+        meta.append(("raise", None, (sq, tk, cu, pv, ctx)))
+    # Expression.update_positions on the four position keys
+    for _ in range(chk.pick(500, 6000)):
+        def rmeta(p_empty=0.3):
+            if rng.random() < p_empty:
+                return ["A", "A", "A", "A"]
+            return [rng.choice(["A", None, rng.randint(0, 50)]) if rng.random() < 0.4 else rng.randint(0, 50) for _ in range(4)]
+
+        init = rmeta()
+        kind = rng.choice(["token", "expr", "expr", "explicit"])
+        if kind == "token":
+            src = {"kind": "token", "t": [rng.randint(1, 9), rng.randint(0, 40), rng.randint(0, 50), rng.randint(0, 60)]}
+        elif kind == "expr":
+            src = {"kind": "expr", "other": rmeta(0.25), "extra": rng.random() < 0.3}
+        else:
+            src = {"kind": "explicit", "v": [rng.choice([None, rng.randint(0, 50)]) for _ in range(4)]}
+        lines.append(json.dumps({"op": "meta", "init": init, "src": src}))
+        expect.append(json.dumps(real_update_positions(init, src), separators=(",", ":")))
+        meta.append(("meta", None, (init, src)))
     got = chk.driver("C13", lines)
     hints = []
     unsupported = 0
@@ -927,9 +1069,11 @@ def run(chk: Check) -> None:
                        "_scan_var, _scan_identifier, _scan_string, _scan_comment, _extract_string incl. the str.find fast path) and of "
                        "errors.highlight_sql; CPython str.isspace/isalnum/isidentifier/upper are shipped per character on the protocol")
     chk.assumptions += [
-        "model: heredoc strings, hex/bit number literals (0x.., 0b.. where the dialect has them), numeric-literal suffixes (1L) and "
-        "command tokens (SHOW/FETCH/... swallowing the rest of the statement) make the model answer 'unsupported'; those inputs are "
-        "covered by the search oracle on the real code only",
+        "model: heredoc strings, numeric-literal suffixes (1L), command tokens (SHOW/FETCH/... swallowing the rest of the statement) and "
+        "int(text, base) on non-ASCII hex/bit bodies make the model answer 'unsupported'; those inputs are covered by the search oracle "
+        "on the real code only",
+        "Parser.raise_error / Expression.update_positions are modelled on the position fields only (message text, non-position meta keys "
+        "and which token each _parse_* method passes are not modelled)",
         "comment attachment to tokens (Token.comments) is not modelled; comment spans are a ghost field of the model",
         "whole-run theorems assume WF (blank/CR/LF are isspace, alphanumerics are never CR/LF) for the shipped class bits; validated over all code points each run",
         "lex_line_col_exact needs cleanCfg (three repair flags probed behaviourally from the live code + delimiter hygiene); the Lean driver evaluates cleanCfg on every dialect's shipped configuration each run",
